@@ -41,10 +41,19 @@ def _from_json(v, recipes, refs):
     def from_json(x, r=None):
         return _from_json(x, recipes, refs)
     if isinstance(v, list):
-        return [from_json(x, recipes) for x in v]
+        out = []
+        for x in v:
+            if isinstance(x, dict) and '__segment__' in x:
+                out.extend(Opaque(f"{x['__segment__']}[{i}]") for i in range(x['n']))
+            else:
+                out.append(from_json(x, recipes))
+        return out
     if isinstance(v, dict):
         if '__ref__' in v:
             return refs[v['__ref__']]
+        if '__coll__' in v:
+            items = [Opaque(f"{v['name']}[{i}]") for i in range(v['n'])]
+            return {'list': list, 'tuple': tuple, 'set': set}[v['__coll__']](items)
         if '__tuple__' in v:
             return tuple(from_json(x, recipes) for x in v['__tuple__'])
         if '__set__' in v:
